@@ -42,6 +42,12 @@ use itertools::Itertools;
 use parking_lot::{Mutex, RwLock};
 use pin_project::{pin_project, pinned_drop};
 
+#[cfg(not(feature = "verif"))]
+use std::thread::spawn as spawn_thread;
+
+#[cfg(feature = "verif")]
+use crate::verif::spawn as spawn_thread;
+
 use crate::{
     Piece,
     eviction::{Eviction, Op},
@@ -505,7 +511,7 @@ where
             .map(|(i, shard_capacity)| {
                 let pipe = self.pipe.clone();
                 let inner = self.inner.clone();
-                std::thread::spawn(move || {
+                spawn_thread(move || {
                     let mut garbages = vec![];
                     let res = inner.shards[i].write().with(|mut shard| {
                         shard.eviction.update(shard_capacity, None).inspect(|_| {
